@@ -27,6 +27,13 @@ class TaskError(Exception):
     pass
 
 
+class EmptyGroupError(TaskError):
+    """A legal exception whose truth value is False."""
+
+    def __len__(self):
+        return 0
+
+
 class Gate(object):
     """A virtual barrier the harness can open; waiting is a simulated block."""
 
@@ -92,7 +99,7 @@ class PoolRun(object):
                 elif kind == "sleep":
                     s.sleep(param)
                 if kind == "raise":
-                    exc = TaskError(tid)
+                    exc = EmptyGroupError(tid) if param == "falsy" else TaskError(tid)
                     run.outcomes[tid] = ("raise", exc)
                     raise exc
                 obj = [tid]
